@@ -262,6 +262,7 @@ class FitBase(FileIOMixin, object):
             )
 
     def _initialize_fitter(self):
+        _old_fitter = getattr(self, "_fitter", None)
         self._fitter = NexusFitter(
             nexus=self._nexus,
             parameters_to_fit=self._fit_param_names,
@@ -269,6 +270,16 @@ class FitBase(FileIOMixin, object):
             minimizer=self._minimizer,
             minimizer_kwargs=self._minimizer_kwargs,
         )
+        self._restore_fitter_configuration(_old_fitter)
+
+    def _restore_fitter_configuration(self, old_fitter):
+        """Fixed and limited parameters belong to the fit, not to a fitter object: carry them over to a newly created fitter."""
+        if old_fitter is None:
+            return
+        for _par_name, _par_value in old_fitter.fixed_parameters.items():
+            self._fitter.fix_parameter(_par_name, _par_value)
+        for _par_name, _par_limits in old_fitter.limited_parameters.items():
+            self._fitter.limit_parameter(_par_name, _par_limits)
 
     @abc.abstractmethod
     def _set_new_data(self, new_data):
